@@ -46,6 +46,7 @@ for j in jobs:
         rows.append((j['prop'], j['expect'], got + ('' if ok else '  <-- UNEXPECTED'), j['desc'] + ('  [%s]' % first[0][:110] if first else '') + '  (%.0fs)' % (time.time() - t)))
     finally:
         shutil.rmtree(scratch, ignore_errors=True)
+        shutil.rmtree(os.path.join(V, '.scratch', os.path.basename(scratch)), ignore_errors=True)
     print('%-4s expect=%-5s got=%-22s %s' % rows[-1], flush=True)
 print('%d changes, %d unexpected verdicts' % (len(rows), bad))
 sys.exit(1 if bad else 0)
